@@ -211,6 +211,7 @@ def knn_valid(tr, labels, nb, f=16):
     all points strictly nearer than the K-th distance present)?  returns None or a message"""
     from collections import Counter
     K = len(nb); st = sorted(tr)
+    if any(d != d or abs(d) > 1e150 for d, _ in nb): return "non-finite / absurd distance among the reported neighbours %s" % ([d for d, _ in nb][:6],)
     got = [int(round(float(f) * d * d)) for d, _ in nb]
     if got != st[:K]: return "reported 16d^2 %s, the %d smallest true values are %s" % (got, K, st[:K])
     have = Counter((t, l) for t, l in zip(tr, labels)); rep = Counter(zip(got, [l for _, l in nb]))
